@@ -47,7 +47,7 @@ ASSUMPTIONS = [
 
 COLS = ("x", "y", "z", "r")
 OFFSETS = (0, 1, 2, 7, 1000)
-KINDS = ("text", "bytes", "path-lib", "path-harness", "textfile")
+KINDS = ("text", "bytes", "path-lib", "path-harness", "textfile", "path-bytes", "path-rel", "fd")
 
 V = [0.0, 1.0, -1.0, 0.5, 0.03125, 0.00004, 0.00005, 0.00006, -0.00004, -0.00005, -0.00007, 1e-7, 0.99995, 1234.5678, 123456.789,
      2000000.125, 1e20, 3.4e38]
